@@ -49,6 +49,11 @@ class Check(PropertyCheck):
         for t in q:
             if '"' in t and c15.blank_text(t, {})[0].strip():
                 out.append(t)
+        # texts whose only line ends are bare carriage returns (classic Mac files): `str::lines` does not split there, so
+        # the text is one row wherever it is put
+        for t in list(out[:8]) + [gen.zoo(self.rng, legend=False, quotes=False) for _ in range(max(3, n // 20))]:
+            if "\n" in t and "\r" not in t:
+                out.append(t.replace("\n", "\r"))
         return [t for t in out if "# Legend:" not in t]
 
     def offsets(self):
